@@ -170,6 +170,45 @@ def pc_ops(ctx):
            'requirement is not rendered as "<name> <op> <version>"')
 
 
+def bound_tiebreak(ctx):
+    R = 'PC-BOUND-TIEBREAK'
+    ctx.rule(R, 'when two bounds meet on the same version, '
+             'simplify_specifiers keeps the stricter one: the sort key ranks '
+             '> above >= (lower bounds are combined with max) and < below <= '
+             '(upper bounds with min)')
+    from ..consteval import UNKNOWN, subst_eval
+    repo = ctx.repo
+    f = repo.func('bfg9000.versioning:simplify_specifiers')
+    keys = [n for n in ast.walk(f.node) if isinstance(n, ast.FunctionDef) and
+            n.name == 'key']
+    Q.require(len(keys) == 1, 'simplify_specifiers: key() not found')
+    ret = Q.returns(keys[0])
+    Q.require(len(ret) == 1 and isinstance(ret[0].value, ast.Tuple) and
+              len(ret[0].value.elts) == 2, 'key(): (version, rank) expected')
+    rank = {}
+    for op in ('>', '>=', '<', '<='):
+        v = subst_eval(repo, f.module, ret[0].value.elts[1],
+                       {'s.operator': op})
+        rank[op] = v
+    ctx.stat('specifier_rank', {k: repr(v) for k, v in rank.items()})
+    ok = all(isinstance(v, int) for v in rank.values())
+    ctx.ob(R, 'key|rank-evaluates', ok, keys[0], 'rank is {}'.format(rank))
+    if ok:
+        ctx.ob(R, 'lower-bound|>-beats->=', rank['>'] > rank['>='], keys[0],
+               'for equal versions max() keeps >= over >: the excluded '
+               'version is accepted')
+        ctx.ob(R, 'upper-bound|<-beats-<=', rank['<'] < rank['<='], keys[0],
+               'for equal versions min() keeps <= over <: the excluded '
+               'version is accepted')
+    t = unparse(f.node)
+    ok = 'gt = i if gt is None else max(gt, i, key=key)' in t and \
+        'lt = i if lt is None else min(lt, i, key=key)' in t
+    ctx.ob(R, 'bounds|max-for-lower,min-for-upper', ok, f.node,
+           'lower bounds are not combined with max / upper with min')
+    ok = unparse(ret[0].value.elts[0]) == 's.version'
+    ctx.ob(R, 'key|version-first', ok, keys[0], '')
+
+
 def req_single(ctx):
     R = 'PC-REQ-SINGLE'
     ctx.rule(R, 'Requires / Requires.private entries carry at most one '
@@ -293,6 +332,7 @@ def check(ctx):
     E.literal_origin(ctx)
     pc_ops(ctx)
     req_single(ctx)
+    bound_tiebreak(ctx)
     pc_vars(ctx)
     unordered.check(ctx, modules={'bfg9000.builtins.pkg_config',
                                   'bfg9000.versioning'})
